@@ -1163,7 +1163,7 @@ func Child(r *ev.Run, args []string) {
 
 // Run is the C12 monitor.
 func Run(r *ev.Run) {
-	r.Rule = "sequential: case i = f(seed,i): Size in {1,2,7,64,4096,default} x 5-60 operations (Write with lengths 0, 1, exactly the free space, free+1, size-1, size, size+1, 3*size; Sync; harness-driven tick; Stop incl. repeated, Write-after-Stop, Sync/Stop before the first Write) with stream/alignment/held-back/flushed-and-synced invariants evaluated after every operation; concurrent (race build): 2-8 goroutines mixing Write (unique records), Sync, Stop and harness ticks, records parsed back out of the sink; crash: for each history a child process is killed (SIGKILL to self) at every client-operation and sink-event boundary and the parent judges the file; distinct = distinct histories / (history, boundary)"
+	r.Rule = "sequential: case i = f(seed,i): Size in {1,2,7,64,4096,default} x 5-60 operations (Write with lengths 0, 1, exactly the free space, free+1, size-1, size, size+1, 3*size; Sync; harness-driven tick; Stop incl. repeated, Write-after-Stop, Sync/Stop before the first Write) with stream/alignment/held-back/flushed-and-synced invariants evaluated after every operation; concurrent (race build): 2-8 goroutines mixing Write (unique records), Sync, Stop and harness ticks, records parsed back out of the sink; crash: for each history a child process is killed (SIGKILL to self) at every client-operation and sink-event boundary and the parent judges the file; distinct = distinct histories / (history, boundary); shared locked sink: 2-3 buffered syncers and a direct writer over one zapcore.Lock(sink) from their own goroutines, overlapping sink calls counted, whole lines of one writer per sink write, every line once in writer order"
 	t0 := time.Now()
 	hung := 0
 	n := r.N(2500, 60000)
